@@ -65,6 +65,14 @@ struct Ctx<'a> {
     /// (Verus for-loops do not support `continue`); K = ordinal of the rewritten loop in the item
     forrange: bool,
     for_seq: usize,
+    /// R11.wildclosure (rules.wild_closure_args: true): a closure parameter written as the wildcard pattern `_`
+    /// becomes the fresh, unused variable `_vx_wK` (Verus: "only variables are supported here, not general
+    /// patterns"). Same meaning for `Copy` arguments (a reference, an integer): nothing is moved or dropped earlier.
+    wild_closure: bool,
+    wild_seq: usize,
+    /// R12.typemap (rules.type_map: {"<type, spaces removed>": "Replacement"}): a type written exactly like the
+    /// key is replaced by a prelude façade type (e.g. `Arc<dyn Error + Send + Sync>`: Verus has no multi-trait dyn)
+    type_map: HashMap<String, String>,
 }
 
 impl<'a> Ctx<'a> {
@@ -90,6 +98,9 @@ impl<'a> Ctx<'a> {
             boolops_all: false,
             forrange: false,
             for_seq: 0,
+            wild_closure: false,
+            wild_seq: 0,
+            type_map: HashMap::new(),
         }
     }
     fn off(&self, lc: proc_macro2::LineColumn) -> usize {
@@ -267,6 +278,37 @@ impl<'c, 'a, 'ast> Visit<'ast> for Rewriter<'c, 'a> {
                 }
             }
         }
+    }
+    fn visit_expr_closure(&mut self, e: &'ast syn::ExprClosure) {
+        // R11.wildclosure: `|_| body` -> `|_vx_wK| body`
+        if self.cx.wild_closure {
+            for p in e.inputs.iter() {
+                let w = match p {
+                    syn::Pat::Wild(w) => Some(w),
+                    syn::Pat::Type(t) => match &*t.pat { syn::Pat::Wild(w) => Some(w), _ => None },
+                    _ => None,
+                };
+                if let Some(w) = w {
+                    let (a, b) = self.cx.range(w.underscore_token.span());
+                    let k = self.cx.wild_seq;
+                    self.cx.wild_seq += 1;
+                    self.cx.push(a, b, format!("_vx_w{}", k), "R11.wildclosure");
+                }
+            }
+        }
+        visit::visit_expr_closure(self, e);
+    }
+    fn visit_type(&mut self, t: &'ast syn::Type) {
+        // R12.typemap: exact (whitespace-insensitive) match of the written type
+        if !self.cx.type_map.is_empty() {
+            let key: String = self.cx.text(t.span()).chars().filter(|c| !c.is_whitespace()).collect();
+            if let Some(rep) = self.cx.type_map.get(&key).cloned() {
+                let (a, b) = self.cx.range(t.span());
+                self.cx.push(a, b, rep, "R12.typemap");
+                return;
+            }
+        }
+        visit::visit_type(self, t);
     }
     fn visit_path(&mut self, p: &'ast syn::Path) {
         if self.cx.float {
@@ -670,6 +712,27 @@ fn impl_trait_arg_edits(cx: &mut Ctx, sig: &syn::Signature) {
             let (_, ie) = cx.range(sig.ident.span());
             cx.push(ie, ie, format!("<{}>", decls.join(", ")), "R7.impltrait.generics");
         }
+    }
+}
+
+/// R13.parampat (rules.param_patterns: [keys]): a parameter written as a destructuring pattern `(a, b): T`
+/// becomes `vx_argK: T` (K = position of the parameter) and `let (a, b) = vx_argK;` is the first statement of
+/// the body (the verus! macro accepts only identifiers as parameters). Same meaning: the pattern is irrefutable.
+fn param_pattern_edits(cx: &mut Ctx, sig: &syn::Signature, block: &syn::Block) {
+    let (bs, _) = cx.range(block.span());
+    let mut lets = String::new();
+    for (k, a) in sig.inputs.iter().enumerate() {
+        if let syn::FnArg::Typed(pt) = a {
+            if !matches!(&*pt.pat, syn::Pat::Ident(_)) {
+                let (ps, pe) = cx.range(pt.pat.span());
+                let ptxt = cx.src[ps..pe].to_string();
+                cx.push(ps, pe, format!("vx_arg{}", k), "R13.parampat");
+                lets.push_str(&format!(" let {} = vx_arg{};", ptxt, k));
+            }
+        }
+    }
+    if !lets.is_empty() {
+        cx.push(bs + 1, bs + 1, lets, "R13.parampat.let");
     }
 }
 
@@ -1085,6 +1148,19 @@ fn main() {
         .unwrap_or_default();
 
     let r9_extend = rules["extend_slice"].as_bool().unwrap_or(false);
+    let wild_closure = rules["wild_closure_args"].as_bool().unwrap_or(false);
+    let param_patterns: HashSet<String> = rules["param_patterns"]
+        .as_array()
+        .map(|a| a.iter().filter_map(|v| v.as_str().map(String::from)).collect())
+        .unwrap_or_default();
+    let type_map: HashMap<String, String> = rules["type_map"]
+        .as_object()
+        .map(|m| {
+            m.iter()
+                .map(|(k, v)| (k.chars().filter(|c| !c.is_whitespace()).collect(), v.as_str().unwrap_or("").to_string()))
+                .collect()
+        })
+        .unwrap_or_default();
     let mut segments = vec![];
     let mut errors: Vec<String> = vec![];
     let mut used_contracts: HashSet<String> = HashSet::new();
@@ -1134,6 +1210,7 @@ fn main() {
             cx.float = float && !sel["nofloat"].as_bool().unwrap_or(false);
             cx.macro_map = macro_map.clone();
             cx.method_map = method_map.clone(); cx.r9_extend = r9_extend;
+            cx.wild_closure = wild_closure; cx.type_map = type_map.clone();
             if kind == "lift" {
                 // R6/R8: lift a closure bound to a `let` or the body of loop k of a function into a free fn
                 let want_ty = sel["type"].as_str();
@@ -1472,6 +1549,11 @@ fn main() {
                 let c = contracts.get(&f.key);
                 if c.is_some() {
                     used_contracts.insert(f.key.clone());
+                }
+                if param_patterns.contains(&f.key) {
+                    if let (Some(sig), Some(block)) = (f.sig, f.block) {
+                        param_pattern_edits(&mut cx, sig, block);
+                    }
                 }
                 apply_contract(&mut cx, f, c, mutself.contains(&f.key));
                 if impl_trait_args.contains(&f.key) {
